@@ -293,6 +293,24 @@ def bitfield_sweep():
             if got != want:
                 fails.append(f"Reg({v:08b}).{path} reads {got}, bits [{hi}:{lo}] are {want}")
                 return n, fails
+    # the slice spelling of a nested sub-BitField (SubField[4:2]) denotes the same placement as its offset spelling (SubField[2])
+    n += 1
+    if ST.SubField[4:2] is not ST.SubField[2]:
+        fails.append("SubField[4:2] is not SubField[2]: the slice spelling places the sub-field at another offset")
+    for v in range(2**W):
+        r = std.from_bits[ST.RegSliceSyntax](BitVector[W](format(v, f"0{W}b")))
+        n += 1
+        if _wi(std.to_bits(r)) != (W, v):
+            fails.append(f"to_bits(from_bits[RegSliceSyntax]({v:08b})) = {std.to_bits(r)}")
+            break
+        for path, (hi, lo, kind) in ST.REG_SLICE_LAYOUT.items():
+            width = hi - lo + 1
+            want = (v >> lo) & (2**width - 1)
+            got = rd(field(r, path), kind, width)
+            n += 1
+            if got != want:
+                fails.append(f"RegSliceSyntax({v:08b}).{path} reads {got}, bits [{hi}:{lo}] are {want}")
+                return n, fails
     # writes: through a Variable-backed bitfield, every field, every value, two backgrounds
     for bg in (0, 255, 0b10110101, 0b01001010):
         for path, (hi, lo, kind) in ST.REG_LAYOUT.items():
@@ -341,6 +359,45 @@ def bitfield_sweep():
             fails.append(f"from_bits[Reg] accepts {W + dw} bits")
         except AssertionError:
             pass
+    return n, fails
+
+
+def cross_type_checks():
+    """(1) a bit pattern is a bit pattern whatever vector type carries it: from_bits[T] of an Unsigned- / Signed- / BitVector-typed
+    source of the right width REINTERPRETS the bits (no numeric conversion, no rejection) and to_bits gives them back;
+    (2) std.Serialized[Base] holds exactly count_bits(Base) bits: an instance of a derived record that adds fields is not a
+    Base value -- rejected, never stored with the derived layout"""
+    from contracts import c17_types as ST
+
+    fails = []
+    n = 0
+    for w in (1, 3, 4):
+        for v in range(2**w):
+            pattern = BitVector[w](format(v, f"0{w}b"))
+            for sname, src in (("BitVector", pattern), ("Unsigned", pattern.unsigned), ("Signed", pattern.signed)):
+                for T in (BitVector[w], Unsigned[w], Signed[w]):
+                    n += 1
+                    try:
+                        x = std.from_bits[T](src)
+                    except Exception as e:  # noqa: BLE001
+                        fails.append(f"from_bits[{T.__name__}]({sname}-typed {v:0{w}b}) raises {type(e).__name__}: the pattern is not reinterpreted")
+                        return n, fails
+                    if _wi(std.to_bits(x)) != (w, v) or type(_dec(x)) is not T:
+                        fails.append(f"from_bits[{T.__name__}]({sname}-typed {v:0{w}b}) = {x}: to_bits gives {std.to_bits(x)}")
+                        return n, fails
+    for base, derived in ((ST.PlainBase, ST.PlainDerived), (ST.TInner[2], ST.TDerived[2])):
+        wb, wd = std.count_bits(base), std.count_bits(derived)
+        for v in (0, 2**wd - 1, (2**wd - 1) // 3):
+            n += 1
+            x = std.from_bits[derived](BitVector[wd](format(v, f"0{wd}b")))
+            try:
+                s = std.Serialized[base](x)
+            except AssertionError:
+                continue
+            got = _wi(s.bits())[0]
+            if got != wb:
+                fails.append(f"Serialized[{base.__name__}](instance of the derived record {derived.__name__}) is accepted and holds {got} bits, count_bits({base.__name__}) = {wb}")
+                break
     return n, fails
 
 
@@ -451,7 +508,7 @@ def serial_sweep(tier="quick", seed=0):
                         break
         except Exception as e:
             fail.append({"type": t.name(), "what": f"unexpected {type(e).__name__}: {str(e)[:120]}"})
-    for label, fn in (("<enumerators>", enumerator_checks), ("<BitField Reg>", bitfield_sweep)):
+    for label, fn in (("<enumerators>", enumerator_checks), ("<BitField Reg>", bitfield_sweep), ("<typed sources / Serialized of a derived record>", cross_type_checks)):
         try:
             k, fl = fn()
             n += k
